@@ -25,6 +25,7 @@ case (`locate_when_all_vertices_on_line`) is judged per run only.
 import Spade.Query
 import Spade.Properties.C02
 import Spade.Proofs.LocateSound
+import Spade.Proofs.WInv
 namespace Spade
 
 theorem C09_check_iff (s : St) (q : Pt) (r : LocRes) :
@@ -97,14 +98,23 @@ theorem C09_face_excludes_outside (s : St) (hconv : s.HullConvex) (hl : s.LinksO
 /-- **Whatever the locate model answers is geometrically true — for every hint.** -/
 theorem C09_locate_sound (s : St) (hl : s.LinksOK) (ha : s.AnchorsOK) (hc : s.CcwAllEdges)
     (ht : s.FaceTriples) (q : Pt) (hint : Nat) (r : LocRes) (h : s.locateM q hint = some r) :
-    s.LocateAnswerOK q r := s.locateM_sound hl ha hc ht q hint r h
+    s.LocateAnswerOK q r :=
+  s.locateM_sound (St.LF.of_linksOK s hl) (s.vbound_of_anchors (St.LF.of_linksOK s hl) ha) hc ht q hint r h
 
 /-- one step of the walk: continuation keeps the invariant, result is true -/
 theorem C09_step_sound (s : St) (hl : s.LinksOK) (hc : s.CcwAllEdges) (ht : s.FaceTriples) (q : Pt)
     (e0 : Nat) (rot : Bool) (hinv : s.LocInv q e0 rot) :
     (∀ e0' rot', s.locStep q e0 rot = .cont e0' rot' → s.LocInv q e0' rot') ∧
     (∀ r, s.locStep q e0 rot = .done r → s.LocateAnswerOK q r) :=
-  s.locStep_sound hl hc ht q e0 rot hinv
+  s.locStep_sound (St.LF.of_linksOK s hl) hc ht q e0 rot hinv
+
+/-- **On the insertion model the hypotheses are invariants**: in every state reached from the empty
+triangulation by any insertion history (hull / chain side conditions `insertSideOK0` evaluated at
+run time), whatever `locateM` answers — for every query point and every hint — is true. -/
+theorem C09_locate_sound_on_model (ops : List (Pt × Nat × Nat)) (t : St)
+    (side : emptyModel.insertAllSideOK0 ops = true) (h : emptyModel.insertAllM ops = some t)
+    (q : Pt) (hint : Nat) (r : LocRes) (hr : t.locateM q hint = some r) : t.LocateAnswerOK q r :=
+  (C02_full_invariant_on_model ops t side h).locate_sound q hint r hr
 
 /-- non-vacuity: the hypotheses hold for a state dumped from the implementation, and the model
 answers (with a valid, a stale and an out-of-range hint) are produced and sound -/
